@@ -44,6 +44,15 @@ def confirm(prop, f, timeout_s):
         if not pb["tests"]:
             f.confirmed = False
             payload["note"] = "concrete playback produced no test (counterexample could not be concretised)"
+            if h.native:
+                # concrete playback can be far more expensive than the check itself (no slicing): fall back
+                # to the native public-API confirmer registered for this harness
+                import native
+                if ("native", h.native) not in _PB_CACHE:
+                    _PB_CACHE[("native", h.native)] = native.confirm(h.native, prop, f)
+                ok, info = _PB_CACHE[("native", h.native)]
+                payload.update({"kind": "native:" + h.native, "native": info})
+                f.confirmed = ok
     elif (h is not None and h.native) or getattr(f, "native_kind", None):
         import native
         nk = h.native if h is not None else f.native_kind
